@@ -9,3 +9,48 @@ pub fn ctl_lookup_err(items: &[usize], i: usize) -> Result<Option<usize>, String
 pub fn ok_lookup_none(items: &[usize], i: usize) -> Result<Option<usize>, String> {
     Ok(items.get(i).copied())
 }
+
+/// G4b control: the probe gives up when it meets an item of a particular kind.
+pub fn g4b_ctl_absent_on_item_kind(slots: &[Option<(u64, usize)>], sym: u64) -> Result<Option<usize>, String> {
+    let mut i = sym as usize % slots.len().max(1);
+    let mut count = 0;
+    loop {
+        match slots.get(i).cloned().flatten() {
+            None => return Ok(None),
+            Some((k, v)) => {
+                if k == sym {
+                    return Ok(Some(v));
+                }
+            }
+        }
+        i += 1;
+        if i >= slots.len() {
+            i = 0;
+        }
+        count += 1;
+        if count > slots.len() {
+            return Ok(None);
+        }
+    }
+}
+
+/// G4b negative control: absence is decided by exhausting the probe sequence only.
+pub fn g4b_ok_absent_on_exhaustion(slots: &[Option<(u64, usize)>], sym: u64) -> Result<Option<usize>, String> {
+    let mut i = sym as usize % slots.len().max(1);
+    let mut count = 0;
+    loop {
+        if let Some((k, v)) = slots.get(i).cloned().flatten() {
+            if k == sym {
+                return Ok(Some(v));
+            }
+        }
+        i += 1;
+        if i >= slots.len() {
+            i = 0;
+        }
+        count += 1;
+        if count > slots.len() {
+            return Ok(None);
+        }
+    }
+}
